@@ -1,5 +1,5 @@
-SPECIFICATION FairSpec
+SPECIFICATION LSpec
 CONSTANTS HThreads <- T  Items <- I  Scenarios <- Scn
 INVARIANTS RanAtMostOnce RunsOnOwnThread DoneOnlyIfStopRequested AllThreadsJoined NoTouchAfterDestroy CountSane
-PROPERTY Terminates
+VIEW LView
 CHECK_DEADLOCK TRUE
